@@ -210,6 +210,31 @@ example :
                           .pollJ 1, .flushJ]
     s.j.p.val = some 3 ∧ s.host.p.val = some 3 ∧ s.j.count = 1 := by decide
 
+/-- **D22 for every pair of values** (`v` written by the client while away and sitting in its queue, `w ≠ v` the host's): in the
+order the code had — request first, queue a frame later — the snapshot sets the client back to `w` while `v` is on its way to
+the host; everything is drained and the client holds what nobody else will -/
+theorem C03_D22_values_cross {V : Type} [DecidableEq V] (v w : V) (hvw : w ≠ v) :
+    let s0 : Snap.State V := { host := { present := true, p := { val := some w } },
+                               j := { present := true, count := 1, p := { val := some v, queue := [v] } } }
+    let s := Snap.run s0 [.connect, .snapshot, .reactJ, .pollJ 2, .flushJ, .flushJ, .detectJ, .reactJ]
+    s.j.p.val = some w ∧ s.host.p.val = some w ∧ s.j.up = [v] ∧ Snap.Quiescent s := by
+  intro s0 s
+  simp [s, s0, Snap.run, Snap.step, Snap.send, Snap.snapshotOf, Snap.recv, Comp.apply, Comp.detect, Comp.replace, Snap.Quiescent,
+    Ne.symm hvw, List.take, List.drop]
+
+/-- **the repaired order, for every pair of values**: the queue leaves ahead of the request, the host applies it and builds the
+snapshot on top of it; client and host end on the client's value, one replica, the client announced it once and nothing
+after the snapshot -/
+theorem C03_returning_writer_repaired_order {V : Type} [DecidableEq V] (v w : V) (hvw : w ≠ v) :
+    let s0 : Snap.State V := { host := { present := true, p := { val := some w } },
+                               j := { present := true, count := 1, p := { val := some v, queue := [v] } } }
+    let s := Snap.run s0 [.connect, .reactJ, .applyH v, .snapshot, .pollJ 3, .flushJ, .flushJ, .flushJ, .detectH, .reactH, .pollJ 1, .flushJ,
+                          .detectJ, .reactJ]
+    s.j.p.val = some v ∧ s.host.p.val = some v ∧ s.j.count = 1 ∧ s.j.up = [v] ∧ Snap.Quiescent s := by
+  intro s0 s
+  simp [s, s0, Snap.run, Snap.step, Snap.send, Snap.snapshotOf, Snap.recv, Comp.apply, Comp.detect, Comp.replace, Snap.Quiescent,
+    hvw, List.take, List.drop]
+
 /-- **D17 (recorded finding).** The snapshot for client 2 is built while the host is still downloading client 1's
 newer publication (7) that it has already relayed: client 2 queues the owner's announcement first and the host's
 own, outdated copy (5) second, and ends with 5 while the host and client 1 hold 7 — with everything drained. -/
